@@ -31,8 +31,10 @@ def solution(rng, n, name="SOLUTION"):
     return L
 
 
-def selected_output(rng, n, elems=("Na", "Cl", "Ca", "K"), with_file=False):
+def selected_output(rng, n, elems=("Na", "Cl", "Ca", "K"), with_file=False, newline_variants=False):
     L = ["SELECTED_OUTPUT %d" % n]
+    if newline_variants and rng.random() < 0.2:
+        L.append(" -new_line false")          # rows are not newline-terminated: the string ends in an unterminated line
     if with_file and rng.random() < 0.3:
         L.append(" -file selfile_%d.sel" % n)
     if rng.random() < 0.3:
@@ -56,7 +58,7 @@ def selected_output(rng, n, elems=("Na", "Cl", "Ca", "K"), with_file=False):
     return L
 
 
-def user_punch(rng, n, no_simno=False):
+def user_punch(rng, n, no_simno=False, newline_variants=False):
     nh = rng.randint(0, 4)
     nv = max(0, nh + rng.choice([0, 0, 0, 1, 2, -1]))
     heads = rng.sample(["alpha", "beta", "gam_ma", "d", "pH", "Na_tot", "x1", "a_very_long_heading_name_that_exceeds_twelve_chars"], nh)
@@ -81,7 +83,11 @@ def user_punch(rng, n, no_simno=False):
         L.append(" %d IF (%s) THEN PUNCH %s" % (ln, "TC > 30" if no_simno else "SIM_NO > 1", vals[-1]))
         ln += 10
         vals = vals[:-1]
-    if vals:
+    if vals and newline_variants and rng.random() < 0.2:
+        # NO_NEWLINE$ suppresses the row's newline (on the last row the string ends in an unterminated line)
+        L.append(" %d PUNCH %s" % (ln, ", ".join(vals)))
+        L.append(" %d IF (%s) THEN t$ = NO_NEWLINE$" % (ln + 5, rng.choice(["STEP_NO >= 0", "STEP_NO > 1", "TC > 30"])))
+    elif vals:
         L.append(" %d PUNCH %s" % (ln, ", ".join(vals)))
     else:
         L.append(" %d REM nothing" % ln)
@@ -126,13 +132,21 @@ def rich_step(rng, have):
     return ["USE solution %d" % n, "EXCHANGE 1", " X 0.01", " -equilibrate %d" % n], set()
 
 
-def multi_sim_input(rng, nsims=None, user_numbers=None, allow_redefine=True, no_simno=False, rich=False, with_file=False):
+def multi_sim_input(rng, nsims=None, user_numbers=None, allow_redefine=True, no_simno=False, rich=False, with_file=False, print_toggle=False, newline_variants=False):
     """An error-free multi-simulation input with SELECTED_OUTPUT/USER_PUNCH blocks. Returns (text, info)."""
     nsims = nsims or rng.randint(1, 4)
     uns = user_numbers if user_numbers is not None else sorted(rng.sample([1, 2, 3, 5, 22, 100], rng.randint(0, 3)))
     sims = []
     sols = []
     info = {"uns": list(uns), "nsims": nsims, "punch": {}}
+    toggles = {}
+    if print_toggle and rng.random() < 0.25:
+        # a deliberate plan of PRINT -selected_output switches: off in some simulation (often the defining one), on again in a later one
+        if nsims < 3:
+            nsims = info["nsims"] = rng.randint(3, 4)
+        off = rng.choice([0, 0, 1])
+        on = rng.randint(off + 1, nsims - 1)
+        toggles = {off: "false", on: "true"}
     for s in range(nsims):
         L = []
         if s == 0 or rng.random() < 0.5:
@@ -141,9 +155,9 @@ def multi_sim_input(rng, nsims=None, user_numbers=None, allow_redefine=True, no_
             sols.append(n)
         if s == 0:
             for n in uns:
-                L += selected_output(rng, n, with_file=with_file)
+                L += selected_output(rng, n, with_file=with_file, newline_variants=newline_variants)
                 if rng.random() < 0.7:
-                    up, nh, nv = user_punch(rng, n, no_simno)
+                    up, nh, nv = user_punch(rng, n, no_simno, newline_variants=newline_variants)
                     L += up
                     info["punch"][n] = (nh, nv)
         elif allow_redefine and uns and rng.random() < 0.25:
@@ -165,7 +179,11 @@ def multi_sim_input(rng, nsims=None, user_numbers=None, allow_redefine=True, no_
                         sols[:] = [q for q in sols if q != -x]
                 else:
                     have.add(x)
-        if rng.random() < 0.1:
+        if s in toggles:
+            L += ["PRINT", " -selected_output %s" % toggles[s]]
+            if not any(l.startswith(("USE", "MIX", "RUN_CELLS")) for l in L) and sols:
+                L += reaction_step(rng, rng.choice(sols))      # make sure the simulation produces rows
+        elif rng.random() < 0.1:
             L += ["PRINT", " -selected_output %s" % rng.choice(["false", "true"])]
         if rng.random() < 0.1:
             L += ["TITLE sim %d of generated input" % s]
